@@ -1,12 +1,340 @@
 /-
 C13 — intention decisions follow precedence, independent of write order.
+
+Property theorems only; the model is CV/Ixn.lean, helper lemmas are CV/Proofs/Ixn*.lean.
+Everything is stated for consul CE (partition = namespace = `default`, no sameness groups) and for
+byte-string names of any length; no bound on the number of intentions, entries or writes.
+
+Reading guide
+  * `StoreWF`       the invariant of the real store (one config entry per destination, distinct
+                    (peer, name) sources with computed precedence; legacy rows unique per id and per
+                    (source, destination)) — `reachable_store_wf` shows every history of writes keeps it
+  * `flatten st`    the set of intentions a store holds, whatever the representation
+  * `mostSpecific`  "most specific wins" written without sorting
+  * `checkDecision` `Intention.Check` / topology: source match, then destination decision
+  * `authzDecision` agent authorize: destination match, then source (peer, name) decision
 -/
-import CV.Ixn
+import CV.Proofs.IxnCreate
+set_option linter.unusedVariables false
 namespace CV.Ixn
 
-/-- The CE precedence table of `UpdatePrecedence` / `computeIntentionPrecedence`. -/
+/-! ## precedence numbers and the comparator -/
+
+/-- The CE precedence table of `UpdatePrecedence` / `computeIntentionPrecedence`:
+    exact→exact 9, *→exact 8, exact→* 6, *→* 5 — destination exactness dominates. -/
 theorem prec_table (s d : Name) (hs : s ≠ star) (hd : d ≠ star) :
     precOf s d = 9 ∧ precOf star d = 8 ∧ precOf s star = 6 ∧ precOf star star = 5 := by
   simp [precOf, countExact, hs, hd]
+
+/-- `IntentionPrecedenceSorter.Less` is a strict weak order, it orders any two intentions with
+    different (peer, source, destination), and intentions it cannot order agree on precedence and key:
+    on a store without duplicate keys it is a strict total order, so the sort has exactly one answer. -/
+theorem less_strict_total_on_distinct_keys :
+    StrictWeak less ∧
+    (∀ a b : Ixn, a.key ≠ b.key → less a b = true ∨ less b a = true) ∧
+    (∀ a b : Ixn, less a b = false → less b a = false → a.prec = b.prec ∧ a.key = b.key) := by
+  refine ⟨less_strictWeak, ?_, fun a b => less_tri⟩
+  intro a b hk
+  cases h1 : less a b with
+  | true => exact Or.inl rfl
+  | false =>
+    cases h2 : less b a with
+    | true => exact Or.inr rfl
+    | false => exact absurd (less_tri h1 h2).2 hk
+
+/-- Sorting by precedence gives the same list for every order of the input, as long as no two
+    intentions share a key. (This is why the unstable `sort.Sort` of the Go code is deterministic.) -/
+theorem sort_perm_invariant {xs ys : List Ixn} (h : KeysNodup xs) (hp : xs.Perm ys) :
+    sortIxns xs = sortIxns ys :=
+  isort_perm_invariant less_strictWeak hp
+    (fun a ha b hb h1 h2 => h.keyInj a ha b hb (less_tri h1 h2).2)
+
+/-! ## the store invariant holds for every history -/
+
+/-- Every history of writes (config entries applied or deleted, upsert / delete / legacy-create
+    mutations, legacy rows set or deleted; accepted or rejected, in any mix) leaves the store
+    well formed. `Op.local`: legacy table rows have no peer. -/
+theorem reachable_store_wf (cfgMode : Bool) (ops : List Op) (ho : ∀ o ∈ ops, o.local) :
+    StoreWF (run { cfgMode := cfgMode } ops) :=
+  storeWF_run (storeWF_empty cfgMode) ops ho
+
+/-! ## decisions -/
+
+/-- HEADLINE. In every well-formed store, both decision pipelines decide a concrete pair
+    `(peer/)s → d` by the single most specific stored intention covering it — exact destination
+    before wildcard destination, then exact source before wildcard source — and by the default policy
+    when none covers it. L7 permissions turn the answer into `allowPerms`. -/
+theorem decision_most_specific {st : Store} (h : StoreWF st) (peer s d : Name) (hs : s ≠ star) (hd : d ≠ star)
+    (defaultAllow allowPerms : Bool) :
+    checkDecision st s d defaultAllow allowPerms
+      = verdict (mostSpecific (flatten st) [] s d) defaultAllow allowPerms ∧
+    authzDecision st peer s d defaultAllow allowPerms
+      = verdict (mostSpecific (flatten st) peer s d) defaultAllow allowPerms :=
+  ⟨check_most_specific h s d hs hd _ _, authz_most_specific h peer s d hs hd _ _⟩
+
+/-- The same for every history of writes, starting from an empty store in either mode. -/
+theorem decision_most_specific_reachable (cfgMode : Bool) (ops : List Op) (ho : ∀ o ∈ ops, o.local)
+    (peer s d : Name) (hs : s ≠ star) (hd : d ≠ star) (da ap : Bool) :
+    let st := run { cfgMode := cfgMode } ops
+    checkDecision st s d da ap = verdict (mostSpecific (flatten st) [] s d) da ap ∧
+    authzDecision st peer s d da ap = verdict (mostSpecific (flatten st) peer s d) da ap :=
+  decision_most_specific (reachable_store_wf cfgMode ops ho) peer s d hs hd da ap
+
+/-- `mostSpecific` means what it says: its result is stored, covers the pair, and no stored covering
+    intention has a higher specificity rank (2·[destination exact] + [source exact]). -/
+theorem mostSpecific_is_most_specific {F : List Ixn} {peer s d : Name} (hs : s ≠ star) (hd : d ≠ star) {i : Ixn}
+    (h : mostSpecific F peer s d = some i) :
+    i ∈ F ∧ covers peer s d i = true ∧ ∀ j ∈ F, covers peer s d j = true → spec j ≤ spec i :=
+  mostSpecific_some hs hd h
+
+/-- With distinct keys the most specific covering intention is unique: two covering intentions of the
+    same rank are the same intention. -/
+theorem most_specific_unique {F : List Ixn} (hk : KeysNodup F) {peer s d : Name} {i j : Ixn}
+    (hi : i ∈ F) (hj : j ∈ F) (ci : covers peer s d i = true) (cj : covers peer s d j = true)
+    (hr : spec i = spec j) : i = j := by
+  apply hk.keyInj i hi j hj
+  simp only [covers, Bool.and_eq_true, decide_eq_true_eq, Bool.or_eq_true] at ci cj
+  simp only [spec] at hr
+  simp only [Ixn.key, Prod.mk.injEq]
+  grind
+
+/-- The default policy decides when no stored intention covers the pair (and only then: otherwise
+    `mostSpecific` is `some _` by `mostSpecific_eq_none_iff`). -/
+theorem default_policy_when_none_covers {st : Store} (h : StoreWF st) (peer s d : Name) (hs : s ≠ star) (hd : d ≠ star)
+    (hnone : ∀ i ∈ flatten st, covers peer s d i = false) (da ap : Bool) :
+    authzDecision st peer s d da ap = ⟨da, false, false⟩ ∧
+    (peer = [] → checkDecision st s d da ap = ⟨da, false, false⟩) := by
+  constructor
+  · rw [(decision_most_specific h peer s d hs hd da ap).2, (mostSpecific_eq_none_iff _ _ _ _).mpr hnone]
+    rfl
+  · intro hp
+    subst hp
+    rw [(decision_most_specific h [] s d hs hd da ap).1, (mostSpecific_eq_none_iff _ _ _ _).mpr hnone]
+    rfl
+
+/-- For local callers the two pipelines (source match + destination decision, destination match +
+    source decision) agree. -/
+theorem check_and_authz_agree {st : Store} (h : StoreWF st) (s d : Name) (hs : s ≠ star) (hd : d ≠ star) (da ap : Bool) :
+    checkDecision st s d da ap = authzDecision st [] s d da ap := by
+  rw [(decision_most_specific h [] s d hs hd da ap).1, (decision_most_specific h [] s d hs hd da ap).2]
+
+/-- `IntentionDecision` is "head of the matching part of the match list". -/
+theorem check_agrees_with_match (st : Store) (s d : Name) (da ap : Bool) :
+    checkDecision st s d da ap =
+      verdict (((matchList st .source s).filter (ixnMatch .destination [] d)).head?) da ap := by
+  simp [checkDecision, decision, List.head?_filter]
+
+/-! ## match and list results -/
+
+/-- What `IntentionMatch` returns: exactly the stored intentions covering the name on the queried
+    side (see `inMatch` for the peer-twin clause of source matches). -/
+theorem match_sound_and_complete {st : Store} (h : StoreWF st) (side : Side) (n : Name) (i : Ixn) :
+    i ∈ matchList st side n ↔ inMatch (flatten st) side n i :=
+  mem_matchList h side n i
+
+/-- Match results come in precedence order: nothing later is `Less` than something earlier, hence the
+    precedence numbers and the specificity rank never increase along the list; no intention appears twice. -/
+theorem match_sorted {st : Store} (h : StoreWF st) (side : Side) (n : Name) :
+    (matchList st side n).Pairwise (fun a b => less b a = false ∧ b.prec ≤ a.prec ∧ spec b ≤ spec a ∧ a.key ≠ b.key) := by
+  obtain ⟨R, hR, hRk, hm⟩ := matchList_eq_sort h side n
+  have hs : Sorted less (sortIxns R) := isort_sorted less_strictWeak R
+  have hwf : PrecWF R := (flatten_precWF h).subset (fun i hi => ((hm i).mp hi).1)
+  have hnd : KeysNodup (sortIxns R) := hRk.perm (isort_perm R).symm (fun h => fun e => h e.symm)
+  rw [hR]
+  unfold Sorted at hs
+  apply List.Pairwise.imp_of_mem _ (hs.and hnd)
+  intro a b ha hb ⟨hlt, hne⟩
+  have pa := (hwf a (mem_isort.mp ha)).trans (precOf_cases a.src a.dst)
+  have pb := (hwf b (mem_isort.mp hb)).trans (precOf_cases b.src b.dst)
+  refine ⟨hlt, ?_, ?_, hne⟩
+  · simp only [less] at hlt
+    by_cases hp : b.prec = a.prec
+    · omega
+    · simp only [ne_eq, hp, not_false_eq_true, if_true, decide_eq_false_iff_not] at hlt; omega
+  · simp only [less] at hlt
+    simp only [spec]
+    by_cases hp : b.prec = a.prec
+    · grind
+    · simp only [ne_eq, hp, not_false_eq_true, if_true, decide_eq_false_iff_not] at hlt
+      grind
+
+/-- `Store.Intentions` lists exactly the stored intentions, in precedence order. -/
+theorem list_sorted_and_complete {st : Store} (h : StoreWF st) :
+    (∀ i, i ∈ listAll st ↔ i ∈ flatten st) ∧ Sorted less (listAll st) :=
+  ⟨fun i => mem_isort, isort_sorted less_strictWeak _⟩
+
+/-- Faithful-model observation (kept visible): a source match can return a *peer*-sourced intention —
+    here `p/web → api` rides along because the same entry also has a local `web` source.
+    `decision_most_specific` shows this never changes a decision (the local twin sorts first). -/
+theorem source_match_returns_peer_twin_counterexample :
+    let web : Name := [119]; let api : Name := [97]; let p : Name := [112]
+    let st := (applyOpE { cfgMode := true }
+      (.ent ⟨api, [⟨p, web, .deny, 0, 0, []⟩, ⟨[], web, .allow, 0, 0, []⟩]⟩)).1
+    (matchList st .source web).map (·.peer) = [[], p] := by
+  decide
+
+/-! ## write order and representation do not matter -/
+
+/-- HEADLINE. Two well-formed stores holding the same set of intentions give the same answers to
+    every query — whatever the order of writes that produced them, the order of entries in the table,
+    the order of sources inside an entry, and whether the set is kept as config entries or as legacy
+    rows (`legacy_and_config_entry_agree` is the instance `a.cfgMode ≠ b.cfgMode`). -/
+theorem decision_write_order_independent {a b : Store} (ha : StoreWF a) (hb : StoreWF b) (h : SameSet a b) :
+    SameAnswers a b := by
+  have hm := fun side n => matchList_sameSet ha hb h side n
+  refine ⟨listAll_sameSet ha hb h, hm, ?_, ?_⟩
+  · intro s d da ap; simp only [checkDecision, hm]
+  · intro peer s d da ap; simp only [authzDecision, hm]
+
+/-- … in particular for any two histories of writes that end with the same set. -/
+theorem histories_with_same_set_agree (m m' : Bool) (ops ops' : List Op)
+    (ho : ∀ o ∈ ops, o.local) (ho' : ∀ o ∈ ops', o.local)
+    (h : SameSet (run { cfgMode := m } ops) (run { cfgMode := m' } ops')) :
+    SameAnswers (run { cfgMode := m } ops) (run { cfgMode := m' } ops') :=
+  decision_write_order_independent (reachable_store_wf m ops ho) (reachable_store_wf m' ops' ho') h
+
+theorem localOnly_empty (m : Bool) : LocalOnly { cfgMode := m } := by
+  intro i hi; cases m <;> simp [flatten] at hi
+
+/-- Creating a set of local intentions with pairwise distinct (destination, source) through upsert
+    mutations, in any two orders (both accepted): same stored set, hence the same answers. -/
+theorem upserts_in_any_order_agree (ws ws' : List (Name × Src)) (hp : ws.Perm ws')
+    (hloc : ∀ w ∈ ws, w.2.peer = [])
+    (hd : ws.Pairwise fun a b => ¬ (a.1 = b.1 ∧ a.2.name = b.2.name))
+    {a b : Store} (ha : runE { cfgMode := true } (upOps ws) = some a)
+    (hb : runE { cfgMode := true } (upOps ws') = some b) :
+    (∀ i, i ∈ flatten a ↔ ∃ w ∈ ws, i = ixnOf w.1 w.2) ∧ SameAnswers a b := by
+  have e0 : ∀ i, i ∉ flatten ({ cfgMode := true } : Store) := by intro i; simp [flatten]
+  have hd' : ws'.Pairwise fun a b => ¬ (a.1 = b.1 ∧ a.2.name = b.2.name) :=
+    hd.perm hp (fun h => fun e => h ⟨e.1.symm, e.2.symm⟩)
+  have ma := mem_flatten_runE_ups (storeWF_empty true) rfl (localOnly_empty true) ws hloc hd
+    (fun _ _ i hi => absurd hi (e0 i)) ha
+  have mb := mem_flatten_runE_ups (storeWF_empty true) rfl (localOnly_empty true) ws'
+    (fun w hw => hloc w (hp.mem_iff.mpr hw)) hd' (fun _ _ i hi => absurd hi (e0 i)) hb
+  have wa := storeWF_runE (storeWF_empty true) (upOps ws) (by simp only [upOps, List.mem_map]; rintro o ⟨w, _, rfl⟩; trivial) ha
+  have wb := storeWF_runE (storeWF_empty true) (upOps ws') (by simp only [upOps, List.mem_map]; rintro o ⟨w, _, rfl⟩; trivial) hb
+  refine ⟨fun i => by simpa [e0 i] using ma i, decision_write_order_independent wa wb ?_⟩
+  intro i
+  rw [ma, mb]
+  simp only [e0 i, false_or]
+  constructor
+  · rintro ⟨w, hw, rfl⟩; exact ⟨w, hp.mem_iff.mp hw, rfl⟩
+  · rintro ⟨w, hw, rfl⟩; exact ⟨w, hp.mem_iff.mpr hw, rfl⟩
+
+/-- Writing whole config entries (one per destination) in any order and with the sources of each entry
+    in any order: the stored set is the described set. Two descriptions of the same set (entries
+    permuted, sources permuted) therefore give the same answers. -/
+theorem entries_in_any_order_agree (es es' : List Entry)
+    (hd : es.Pairwise fun a b => a.name ≠ b.name) (hd' : es'.Pairwise fun a b => a.name ≠ b.name)
+    (hsame : ∀ i, (∃ e ∈ es, ∃ s ∈ e.sources, i = ixnOf e.name s) ↔ (∃ e ∈ es', ∃ s ∈ e.sources, i = ixnOf e.name s))
+    {a b : Store} (ha : runE { cfgMode := true } (entOps es) = some a)
+    (hb : runE { cfgMode := true } (entOps es') = some b) :
+    (∀ i, i ∈ flatten a ↔ ∃ e ∈ es, ∃ s ∈ e.sources, i = ixnOf e.name s) ∧ SameAnswers a b := by
+  have e0 : ∀ i, i ∉ flatten ({ cfgMode := true } : Store) := by intro i; simp [flatten]
+  have ma := mem_flatten_runE_ents (st0 := { cfgMode := true }) rfl es hd (fun _ _ i hi => absurd hi (e0 i)) ha
+  have mb := mem_flatten_runE_ents (st0 := { cfgMode := true }) rfl es' hd' (fun _ _ i hi => absurd hi (e0 i)) hb
+  have wa := storeWF_runE (storeWF_empty true) (entOps es) (by simp only [entOps, List.mem_map]; rintro o ⟨w, _, rfl⟩; trivial) ha
+  have wb := storeWF_runE (storeWF_empty true) (entOps es') (by simp only [entOps, List.mem_map]; rintro o ⟨w, _, rfl⟩; trivial) hb
+  refine ⟨fun i => by simpa [e0 i] using ma i, decision_write_order_independent wa wb ?_⟩
+  intro i
+  rw [ma, mb]
+  simp only [e0 i, false_or]
+  exact hsame i
+
+/-- Legacy table rows with distinct ids, written in any order: same answers. -/
+theorem legacy_rows_in_any_order_agree (rs rs' : List (Name × Ixn)) (hp : rs.Perm rs')
+    (hd : rs.Pairwise fun a b => a.1 ≠ b.1) (hloc : ∀ x ∈ rs, x.2.peer = [])
+    {a b : Store} (ha : runE { cfgMode := false } (lsetOps rs) = some a)
+    (hb : runE { cfgMode := false } (lsetOps rs') = some b) :
+    (∀ i, i ∈ flatten a ↔ ∃ x ∈ rs, i = normRow x.2) ∧ SameAnswers a b := by
+  have e0 : ∀ i, i ∉ flatten ({ cfgMode := false } : Store) := by intro i; simp [flatten]
+  have hd' : rs'.Pairwise fun a b => a.1 ≠ b.1 := hd.perm hp (fun h => fun e => h e.symm)
+  have ma := mem_flatten_runE_lsets (st0 := { cfgMode := false }) rfl rs hd (by simp) ha
+  have mb := mem_flatten_runE_lsets (st0 := { cfgMode := false }) rfl rs' hd' (by simp) hb
+  have wa := storeWF_runE (storeWF_empty false) (lsetOps rs)
+    (by simp only [lsetOps, List.mem_map]; rintro o ⟨x, hx, rfl⟩; exact hloc x hx) ha
+  have wb := storeWF_runE (storeWF_empty false) (lsetOps rs')
+    (by simp only [lsetOps, List.mem_map]; rintro o ⟨x, hx, rfl⟩; exact hloc x (hp.mem_iff.mpr hx)) hb
+  refine ⟨fun i => by simpa [e0 i] using ma i, decision_write_order_independent wa wb ?_⟩
+  intro i
+  rw [ma, mb]
+  simp only [e0 i, false_or]
+  constructor
+  · rintro ⟨w, hw, rfl⟩; exact ⟨w, hp.mem_iff.mp hw, rfl⟩
+  · rintro ⟨w, hw, rfl⟩; exact ⟨w, hp.mem_iff.mpr hw, rfl⟩
+
+/-- Legacy and config-entry representations agree: the same set of local intentions written as legacy
+    rows (any ids, any order) and through upsert mutations (any order) gives the same answers. -/
+theorem legacy_and_config_entry_agree (ws : List (Name × Src)) (rs : List (Name × Ixn))
+    (hloc : ∀ w ∈ ws, w.2.peer = []) (hd : ws.Pairwise fun a b => ¬ (a.1 = b.1 ∧ a.2.name = b.2.name))
+    (hrd : rs.Pairwise fun a b => a.1 ≠ b.1) (hrl : ∀ x ∈ rs, x.2.peer = [])
+    (hsame : ∀ i, (∃ w ∈ ws, i = ixnOf w.1 w.2) ↔ (∃ x ∈ rs, i = normRow x.2))
+    {a b : Store} (ha : runE { cfgMode := true } (upOps ws) = some a)
+    (hb : runE { cfgMode := false } (lsetOps rs) = some b) : SameAnswers a b := by
+  have ma := (upserts_in_any_order_agree ws ws (List.Perm.refl _) hloc hd ha ha).1
+  have mb := (legacy_rows_in_any_order_agree rs rs (List.Perm.refl _) hrd hrl hb hb).1
+  have wa := storeWF_runE (storeWF_empty true) (upOps ws) (by simp only [upOps, List.mem_map]; rintro o ⟨w, _, rfl⟩; trivial) ha
+  have wb := storeWF_runE (storeWF_empty false) (lsetOps rs)
+    (by simp only [lsetOps, List.mem_map]; rintro o ⟨x, hx, rfl⟩; exact hrl x hx) hb
+  apply decision_write_order_independent wa wb
+  intro i
+  rw [ma, mb]
+  exact hsame i
+
+/-! ## non-vacuity: concrete stores, writes and decisions -/
+
+namespace Ex
+def web : Name := [119, 101, 98]
+def api : Name := [97, 112, 105]
+def db  : Name := [100, 98]
+def p1  : Name := [112, 49]
+
+/-- `* → api` deny, `web → api` allow, `web → *` deny, `p1/web → api` deny, `* → *` allow -/
+def writes : List Op :=
+  [.ent ⟨api, [⟨[], star, .deny, 0, 0, []⟩, ⟨p1, web, .deny, 0, 0, []⟩, ⟨[], web, .allow, 0, 0, []⟩]⟩,
+   .up star ⟨[], web, .deny, 0, 0, []⟩, .up star ⟨[], star, .allow, 0, 0, []⟩]
+def st : Store := run { cfgMode := true } writes
+
+/-- the same set written in another order and shape -/
+def writes' : List Op :=
+  [.up star ⟨[], star, .allow, 0, 0, []⟩, .up api ⟨[], web, .allow, 0, 0, []⟩, .up star ⟨[], web, .deny, 0, 0, []⟩,
+   .ent ⟨api, [⟨[], web, .allow, 0, 0, []⟩, ⟨p1, web, .deny, 0, 0, []⟩, ⟨[], star, .deny, 0, 0, []⟩]⟩]
+def st' : Store := run { cfgMode := true } writes'
+
+theorem writes_local : ∀ o ∈ writes, o.local := by
+  intro o ho; simp only [writes, List.mem_cons, List.not_mem_nil, or_false] at ho
+  rcases ho with rfl | rfl | rfl <;> trivial
+theorem writes'_local : ∀ o ∈ writes', o.local := by
+  intro o ho; simp only [writes', List.mem_cons, List.not_mem_nil, or_false] at ho
+  rcases ho with rfl | rfl | rfl | rfl <;> trivial
+
+-- `web → api` is decided by the exact intention (allow), not by `* → api` (deny) or `web → *` (deny)
+example : checkDecision st web api false false = ⟨true, false, true⟩ := by decide
+-- `db → api` by `* → api` (destination exactness first), not by `* → *`
+example : checkDecision st db api true false = ⟨false, false, false⟩ := by decide
+-- `web → db` by `web → *`
+example : authzDecision st [] web db true false = ⟨false, false, false⟩ := by decide
+-- `db → db` by `* → *`, a peer caller `p1/web → api` by its own intention, `p1/db → api` by the default
+example : authzDecision st [] db db false false = ⟨true, false, false⟩ := by decide
+example : authzDecision st p1 web api true false = ⟨false, false, true⟩ := by decide
+example : authzDecision st p1 db api true false = ⟨true, false, false⟩ := by decide
+-- the hypotheses of the order-independence theorem are met by the two histories
+theorem same_list : (flatten st).length = 5 ∧ listAll st = listAll st' := by decide
+example : SameAnswers st st' :=
+  histories_with_same_set_agree true true writes writes' writes_local writes'_local (sameSet_of_listAll_eq same_list.2)
+-- accepted upserts in two orders (hypotheses of `upserts_in_any_order_agree`)
+example : (runE { cfgMode := true } (upOps [(api, ⟨[], web, .allow, 0, 0, []⟩), (star, ⟨[], web, .deny, 1, 0, []⟩)])).isSome = false := by
+  decide -- L7 permissions on a wildcard destination are rejected
+example : (runE { cfgMode := true } (upOps [(api, ⟨[], web, .none, 2, 0, []⟩), (star, ⟨[], web, .deny, 0, 0, []⟩)])).isSome = true := by
+  decide
+-- an L7 intention decides by `allowPerms`
+example : (runE { cfgMode := true } (upOps [(api, ⟨[], web, .none, 2, 0, []⟩)])).map
+    (fun s => (checkDecision s web api false false, checkDecision s web api false true))
+    = some (⟨false, true, true⟩, ⟨true, true, true⟩) := by decide
+-- legacy rows
+example : (runE { cfgMode := false } (lsetOps [([1], ⟨[], web, api, .allow, 0, 0⟩), ([2], ⟨[], star, api, .deny, 0, 0⟩)])).map
+    (fun s => (checkDecision s web api false false, checkDecision s db api true false))
+    = some (⟨true, false, true⟩, ⟨false, false, false⟩) := by decide
+end Ex
 
 end CV.Ixn
